@@ -6,7 +6,7 @@ CONSTANTS
   MaxSwitches = 3
   Words = {"english", "frog", "about", "a-propos", "users", "utilisateurs", "x", "42", "docs", "fra", "en-US"}
 SPECIFICATION MCSpec
-INVARIANTS ReadsBack EmitCases
-PROPERTIES RoundTrip KeepsShape
+INVARIANTS ReadsBack MatchedAsCurrent EmitCases
+PROPERTIES RoundTrip KeepsShape RouteStable
 VIEW NoTrail
 CHECK_DEADLOCK FALSE
